@@ -263,6 +263,10 @@ package tree
 //
 //@ fn Tree.Add
 //@   requires treeOK(tree) && allSafe() && sepOK() && lockFree(tree)
+//@   ensures [C17] ambiguity-checked-first: called("tree.Tree.checkAmbiguous", 1) && (callresult("tree.Tree.checkAmbiguous", 1, 0) != nil ==>
+//@        result == callresult("tree.Tree.checkAmbiguous", 1, 0) && !called("tree.Tree.getNode", 1))
+//@   atcall tree.Tree.checkAmbiguous [C17] whole-pattern: arg0 == tree && arg1 == pattern
+//@   atcall tree.Tree.getNode [C17] after-check: arg0 == tree && arg1 == pattern && callresult("tree.Tree.checkAmbiguous", 1, 0) == nil
 //@   ensures [C03,C05] safe: result == nil ==> allSafe() && sepOK()
 //
 //@ fn New
@@ -342,6 +346,10 @@ package tree
 //@   ensures [C17] duplicate-rejected: result == nil ==> (forall i int :: 0 <= i && i < len(methods) ==> !old(in(methods[i], n.handlers)))
 //@   ensures [C17] repeated-rejected: result == nil ==> (forall i int, j int :: 0 <= j && j < i && i < len(methods) ==> methods[i] != methods[j])
 //@   ensures [C08] installed: result == nil ==> (forall i int :: 0 <= i && i < len(methods) ==> in(methods[i], n.handlers))
+//@   ensures [C09] head-own-chain: result == nil && (exists i int :: 0 <= i && i < len(methods) && methods[i] == "GET") ==>
+//@        n.handlers["HEAD"] == pure0("tree.ApplyMiddleware", h, "HEAD", pattern, n.root.name, ms)
+//@   ensures [C09] each-own-chain: result == nil ==> (forall i int :: 0 <= i && i < len(methods) ==>
+//@        n.handlers[methods[i]] == pure0("tree.ApplyMiddleware", h, methods[i], pattern, n.root.name, ms))
 //@   ensures [C08] head-with-get: result == nil ==> (in("HEAD", n.handlers) <==> in("GET", n.handlers))
 //@   ensures [C08,C05] automatic: result == nil ==> in("OPTIONS", n.handlers) && in("", n.handlers)
 //@   ensures [C18,C04] no-manual-trace: result == nil ==> (n.root.hasTrace ==> !in("TRACE", n.handlers))
@@ -356,6 +364,8 @@ package tree
 //@   inv 2 [C17] all-valid: forall i int :: 0 <= i && i < len(methods) ==> !reserved(n, methods[i]) && bit(methods[i]) != 0 && !old(in(methods[i], n.handlers)) &&
 //@        (forall j int :: 0 <= j && j < i ==> methods[j] != methods[i])
 //@   inv 2 [C08] so-far: (forall i int :: 0 <= i && i <= rangeindex ==> in(methods[i], n.handlers)) && (forall k string :: old(in(k, n.handlers)) ==> in(k, n.handlers))
+//@   inv 2 [C09] own-chains: (forall i int :: 0 <= i && i <= rangeindex ==> n.handlers[methods[i]] == pure0("tree.ApplyMiddleware", h, methods[i], pattern, n.root.name, ms)) &&
+//@        ((exists i int :: 0 <= i && i <= rangeindex && methods[i] == "GET") ==> n.handlers["HEAD"] == pure0("tree.ApplyMiddleware", h, "HEAD", pattern, n.root.name, ms))
 //@   inv 2 [C08] head: (in("HEAD", n.handlers) <==> in("GET", n.handlers)) && (n.root.hasTrace ==> !in("TRACE", n.handlers))
 
 // The server-wide summary behind "OPTIONS *" (C04): a counter per method, and the root's mask rendered from it.
@@ -484,6 +494,7 @@ package tree
 //@   pure
 //
 //@ fn ApplyMiddleware
+//@   pure
 //@   requires forall k int :: 0 <= k && k < len(f) ==> f[k] != nil
 //@   atcall types.Middleware.Middleware [C09] args: arg0 == f[rangeindex + 1] && arg2 == method && arg3 == pattern && arg4 == router
 //@   inv 1 [C09] bound: -1 <= rangeindex && rangeindex < len(f)
